@@ -599,11 +599,21 @@ def header_expression_scope_rule(ctx, res, rule: str) -> None:
             seen = set()
             for t, pol in cfg.guards(nd.id):
                 texts = [t]
-                for c in ast.walk(t):
-                    if isinstance(c, ast.Call) and is_self_attr(c.func) and f.cls is not None:
-                        m = idx.find_method(f.cls.qualname, c.func.attr)
-                        if m is not None:
+                todo, done = [t], set()
+                while todo:  # the methods of the class (and functions of the module) the test calls, transitively
+                    cur = todo.pop()
+                    for c in ast.walk(cur):
+                        if not isinstance(c, ast.Call):
+                            continue
+                        m = None
+                        if is_self_attr(c.func) and f.cls is not None:
+                            m = idx.find_method(f.cls.qualname, c.func.attr)
+                        elif isinstance(c.func, ast.Name):
+                            m = idx.functions.get(f"{f.unit.modname}.{c.func.id}")
+                        if m is not None and m.qualname not in done and len(done) < 12:
+                            done.add(m.qualname)
                             texts.append(m.node)
+                            todo.append(m.node)
                 seen |= {x.attr for tt in texts for x in ast.walk(tt) if isinstance(x, ast.Attribute)}
             got = [a for a in need if a in seen]
             if best is None or len(got) > len(best[1]):
